@@ -6,6 +6,13 @@
 (* haplotype numbers), REFMASKED, and per sample GT / AFP / AOP / GP (3-decimal *)
 (* values as integers in 1/1000, -1 = ".").  Everything is recomputed with the  *)
 (* definitions of HapCallingDefs and every printed field gets a verdict.        *)
+(* Wide loci (70-140 samples with private haplotypes over 8-9 SNVs: more than   *)
+(* 127 and more than 255 reported ALT haplotypes) are far beyond what TLC can   *)
+(* enumerate in HapCalling; they are validated here as recorded events with     *)
+(* the same definitions: allele numbers are plain integers 0..Len(ALT), a GT    *)
+(* shows "." exactly for the excluded haplotypes of the called genotype         *)
+(* (GtDotIffExcluded) and every other number indexes the ALT list               *)
+(* (GtAlleleNumberIsAltIndex), whatever the number of alleles.                  *)
 EXTENDS Integers, Sequences, FiniteSets, TLC, Json, IOUtils, HapCallingDefs
 
 Trace == JsonDeserialize(IOEnv.TRACE_FILE)
@@ -33,6 +40,10 @@ Prep(e) ==
                                     IN  [r |-> r, ranks |-> {x[1] : x \in r.gp}]]
                             ELSE <<>> ])
 
+Dots(gt) == Cardinality({j \in 1..Len(gt) : gt[j] < 0})
+(* the "."s of a GT come after its allele numbers *)
+DotsLast(gt) == \A j \in 1..(Len(gt) - 1) : gt[j] >= 0 \/ gt[j + 1] < 0
+
 SampleVerdict(s, c) ==
   LET e == c.e
       P == c.e.ps[s]
@@ -47,7 +58,11 @@ SampleVerdict(s, c) ==
       (* all entries outside ranks are 0 (gpOk), so the sum of the array is the sum over ranks *)
       rankSeq == SetToSeq(ranks)
       gpSum == SumSeq([j \in 1..Len(rankSeq) |-> out.gp[rankSeq[j] + 1]])
-  IN  IF ~(\E cl \in r.calls : cl[2] = out.gt) THEN "GtDotIffExcluded"
+  IN  IF ~(\E cl \in r.calls : cl[2] = out.gt)
+      THEN (* the "."s are where and as many as some admissible call has them: a listed haplotype carries a number *)
+           (* that is not its position in ALT; everything else: "." does not stand exactly for the excluded ones  *)
+           (IF DotsLast(out.gt) /\ \E cl \in r.calls : Dots(cl[2]) = Dots(out.gt)
+            THEN "GtAlleleNumberIsAltIndex" ELSE "GtDotIffExcluded")
       ELSE IF Len(out.afp) # nrec \/ Len(out.aop) # nrec THEN "AfpAopLength"
       ELSE IF ~(\A i \in 1..nrec : \/ Close(out.afp[i], r.afp[i], e.m * P)
                                   \/ (masked /\ i = 1 /\ out.afp[i] = 0)) THEN "AfpIsFrequency"
